@@ -57,7 +57,7 @@ def gen(rng, ctx):
         cd["nodes"] = [[n, (rng.choice(["0", "1"]) if t == "input" else t), o] for n, t, o in cd["nodes"]]
         kind = "no_startpoints"
     elif rng.random() < 0.25:
-        cd = G.add_blackboxes(rng, cd, 1, p_unconnected=0.0)
+        cd = G.add_blackboxes(rng, cd, 1, p_unconnected=rng.choice([0.0, 0.0, 0.4]))
         kind = "pins"
     elif rng.random() < 0.15 and ni <= 6:
         cd = G.add_cycles(rng, cd, rng.randint(1, 2))
